@@ -23,6 +23,7 @@ func init() {
 			"(D5) the buffered window belongs to a position: every function that moves qLogFile.position other than the sequential reader (which moves it to the line readNextLine just returned) empties the buffer first. " +
 			"(D6) where the file reader looks for a byte with an Index-style library search, the result is tested as 'not negative' (a hit at offset 0 is a hit). " +
 			"(D2, cont.) every turn of the multi-file seek's loop runs that file's own timestamp search. " +
+			"(D3, cont.) the chunk start computed as position minus chunk size is final: nothing moves it afterwards (the window never exceeds the buffer). " +
 			"Not decided: 'every line exactly once, in reverse order' and the exact position after a seek — arithmetic over runtime offsets.",
 		RuleText:    "Natural loops from SSA dominators; four variant idioms; CFG edge guards for the result classes.",
 		Assumptions: []string{"os.File Read/Seek terminate"},
@@ -653,6 +654,49 @@ func c20Windows(c *Ctx) {
 		ok := len(gt) == 1 && len(sub) == 1 && len(mk) == 1 && gt[0] == sub[0] && sub[0] == mk[0] && mk[0] >= 2*limit
 		r.Check(ok, "C20-D3", "chunk-constants-agree", p.FnPos(ib), "the chunk bound test, seek offset and allocation use one size of at least two entry limits",
 			fmt.Sprintf("the chunk bound test / seek offset / allocation sizes %v / %v / %v disagree or are below two entry limits", gt, sub, mk))
+		// the window start computed from the position is final: once it was set to position - chunk nothing moves
+		// it again (a start moved down afterwards makes the window longer than the buffer that is allocated for it)
+		isStartStore := func(in ssa.Instruction) bool {
+			st, isSt := in.(*ssa.Store)
+			if !isSt {
+				return false
+			}
+			fr, isF := core.FieldOfAddr(st.Addr)
+			return isF && fr.Type == "querylog.qLogFile" && fr.Field == "bufferStart"
+		}
+		var from []core.Point
+		for _, b := range ib.Blocks {
+			for i, in := range b.Instrs {
+				if !isStartStore(in) {
+					continue
+				}
+				isSub := func(v ssa.Value) bool {
+					bo, isBO := v.(*ssa.BinOp)
+					return isBO && bo.Op == token.SUB
+				}
+				val := in.(*ssa.Store).Val
+				computed := isSub(val)
+				if mc, isCall := val.(*ssa.Call); isCall { // max(position-chunk, 0)
+					if bi, isB := mc.Call.Value.(*ssa.Builtin); isB && bi.Name() == "max" {
+						for _, a := range mc.Call.Args {
+							if isSub(a) {
+								computed = true
+							}
+						}
+					}
+				}
+				if computed {
+					from = append(from, core.Point{Block: b, Idx: i + 1})
+				}
+			}
+		}
+		moved := false
+		if len(from) > 0 {
+			moved, _, _ = core.Reach(core.Query{From: from, Target: isStartStore})
+		}
+		r.Check(len(from) > 0 && !moved, "C20-D3", "window-start-final", p.FnPos(ib),
+			"the chunk start computed as position minus the chunk size is not changed afterwards",
+			"the chunk start is changed after it was computed from the position: the window [start, position) can then be longer than the buffer allocated for it (index out of range, or bytes missing, for positions just above the chunk size)")
 	}
 	rp := p.Fn("(*querylog.qLogFile).readProbeLine")
 	if rp == nil {
